@@ -897,6 +897,15 @@ mut("C03", "mutations_handler_returns_before_flush", "apply_mutations returns ri
 mutp("C10", "seeded_c10c_only_first_edge_removed", "remove_relation removes only the first matching edge although adding creates parallel edges (seeded change c10c)",
      ["C10.R5/remove_relation/undoes-every-add"], "seeded/c10c/patch.diff")
 
+mutp("C13", "seeded_c13c_send_cursor_restored_from_checkpoint", "the send cursor is restored from a checkpoint taken before the batch when an event fails to serialise (seeded change c13c)",
+     ["C13.R7/ClientEventReader/never-rewound"], "seeded/c13c/patch.diff")
+mutp("C05", "seeded_c05c_stamping_cache_overwritten", "the tick-stamping cache is overwritten with the last recipient's bytes while the cached tick size is stale (seeded change c05c)",
+     ["C05.R8/get_bytes/cached-bytes-only-for-same-tick"], "seeded/c05c/patch.diff")
+mutp("C09", "seeded_c09c_only_active_set_excludes_new_client", "a newly connected client is excluded only from the active buffered set (seeded change c09c)",
+     ["C09.R5/exclude_client/every-buffered-set"], "seeded/c09c/patch.diff")
+mutp("C07", "seeded_c07c_independent_parts_merged", "event and trigger independence hash to the same part (seeded change c07c)",
+     ["C07.R7/"], "seeded/c07c/patch.diff")
+
 # first-sight completeness (shared rule: C07.R6 / C03.R7 / C08.R6)
 mut("C07", "seeded_c07a_rate_limited_components_skipped", "rate-limited components are skipped before the per-client pass unless just added (late-authorized clients never get them)", ["C07.R6/collect_changes/every-component-reaches-clients"],
     ("src/server.rs", """                let ctx = SerializeCtx {
